@@ -50,7 +50,7 @@ CHECKS = {
     ),
     "C11": dict(
         category="proof",
-        text="Lean 4 theorems (C11.*): on the model (lattice = its parameter records) after any history of assign/track/clone/read a track equals the track of a freshly built lattice with the final records; tracking is pure and repeatable; the Screen's read-beam/cached-reading state machine is coherent for every history and a reading reflects the last beam that passed. The claim that the real objects are such a pure machine is decided by the falsifier: random histories with bitwise snapshots and _version counters of every input tensor, final track vs rebuilt lattice, readings vs fresh diagnostics.",
+        text="Lean 4 theorems (C11.*): on the model (lattice = its parameter records) after any history of assign/track/clone/read a track equals the track of a freshly built lattice with the final records; tracking is pure and repeatable; the Screen's read-beam/cached-reading state machine is coherent for every history and a reading reflects the last beam that passed. The claim that the real objects are such a pure machine is decided by the falsifier: random histories with bitwise snapshots and _version counters of every input tensor, final track vs rebuilt lattice, readings vs fresh diagnostics. Added: merged_probe_beam_is_the_tracked_beam (the probe beam of transfer_maps_merged reaches the shared diagnostics as the beam element-by-element tracking sends there), tied by stub ops arrP / arrM; probe merged_readings (readings after transfer_maps_merged = fresh lattice tracked).",
         design="§5 C11",
         note='Trusted: Lean 4.33 kernel, Mathlib; axioms propext/Classical.choice/Quot.sound only (audited each run); instance Scalar ℝ; real-number semantics (round-off outside the theorems, covered by double-vs-double correspondence); harness generators; partial: aliasing is observed at tensor granularity, not proved; autograd graph retention not modelled.',
         technique='Lean 4 proof (state-machine invariant by induction over histories) + history falsifier on the real objects',
@@ -142,7 +142,7 @@ CHECKS = {
              "inside a merged map; dropping identity-tracking elements and replacing by equal-tracking elements "
              "preserve tracking (the per-class hypotheses are sampled on the real classes). Tie: exact stub "
              "correspondence of the merged lattice structure incl. every merged matrix; falsifier on random real "
-             "lattices for all four transformations with shrinking to the culprit element.",
+             "lattices for all four transformations with shrinking to the culprit element. Added: merge_arrivals — the beams transfer_maps_merged sends into the items it does not merge are those of element-by-element tracking (Lat.arrivals = Lat.arrSpec), tied by stub ops arrP / arrM that record what arrives at the real stub elements.",
         design="§5 C08",
         note="Trusted: Lean kernel, stub harness. Known findings (elements without is_active are treated as inactive) "
              "are listed in known_findings.json.",
